@@ -23,8 +23,8 @@ EXTRA_noesc := -DQENTEM_AUTO_ESCAPE_HTML=0
 .PHONY: all setup quick thorough clean
 all: quick
 setup: quick
-quick: $(B)/trace-sse2/qsim $(B)/san-sse2/qsim
-thorough: quick $(B)/trace-scalar/qsim $(B)/trace-avx2/qsim $(B)/san-avx2/qsim $(B)/trace-sse2-noesc/qsim
+quick: $(B)/trace-sse2/qsim $(B)/san-sse2/qsim $(B)/opt-gcc-o3/qsim
+thorough: quick $(B)/trace-scalar/qsim $(B)/trace-avx2/qsim $(B)/san-avx2/qsim $(B)/trace-sse2-noesc/qsim $(B)/opt-gcc-o2/qsim $(B)/opt-clang-o3/qsim
 
 # ---- runtime objects (plain)
 $(B)/rt/%.o: sim/%.cpp sim/rt.hpp sim/rt_int.hpp
@@ -57,6 +57,21 @@ $(B)/san-$(1)/qsim: $$(patsubst sim/%.cpp,$(B)/san-$(1)/%.o,$$(SAN_RT_SRCS)) $$(
 endef
 $(eval $(call SAN_RULES,sse2,$(SIMD_sse2)))
 $(eval $(call SAN_RULES,avx2,$(SIMD_avx2)))
+
+# ---- optimiser twins: the same worlds and the same simulated heap, the library compiled without any instrumentation
+# at the optimisation level releases are built with. What the optimiser is entitled to assume (strict aliasing,
+# object lifetimes) is part of the environment a header-only library meets; only the heap oracles (double / invalid
+# release, redzones, leaks), the traps and the reference models decide here, there is no access monitor.
+define OPT_RULES
+$(B)/opt-$(1)/%.o: worlds/%.cpp $$(REPO_HDRS) $$(W_HDRS)
+	@mkdir -p $$(dir $$@)
+	$(2) $$(W_COMMON) $(3) -fno-omit-frame-pointer -DQSIM_OPT -c $$< -o $$@
+$(B)/opt-$(1)/qsim: $$(patsubst sim/%.cpp,$(B)/rt/%.o,$$(RT_SRCS)) $$(patsubst worlds/%.cpp,$(B)/opt-$(1)/%.o,$$(W_SRCS))
+	$(2) -no-pie -o $$@ $$^ $$(WRAPS) -lpthread
+endef
+$(eval $(call OPT_RULES,gcc-o3,g++,-O3 $(SIMD_sse2)))
+$(eval $(call OPT_RULES,gcc-o2,g++,-O2 $(SIMD_sse2)))
+$(eval $(call OPT_RULES,clang-o3,clang++,-O3 $(SIMD_avx2)))
 
 clean:
 	rm -rf $(B)
